@@ -111,7 +111,6 @@ package koalabear
 //@ end
 
 //@ func Element.Mul
-//@ tags purego
 //@ requires val(x) < q && val(y) < q
 //@ lemma mulmono(val(x), q-1, val(y))
 //@ ghost-final K = montReduce_M
@@ -122,7 +121,6 @@ package koalabear
 //@ end
 
 //@ func Element.Square
-//@ tags purego
 //@ requires val(x) < q
 //@ lemma mulmono(val(x), q-1, val(x))
 //@ ghost-final K = montReduce_M
@@ -141,7 +139,6 @@ package koalabear
 //@ end
 
 //@ func Element.Mul2ExpNegN
-//@ tags purego
 //@ option noabstract
 //@ requires val(x) < q && n <= 32
 //@ ensures[reduced] val(z) < q
